@@ -130,14 +130,26 @@ def base_chain(a):
         yield a
         a = a.base
 
-def mask_class(q):
+def mask_class(q, mask=None):
+    """what the pickle encoder sees: none / all / mixed, and whether the values hidden under a mixed mask differ from
+    the default that decoding puts there (then the decoded bytes are not those of the source)"""
     if not isinstance(q._values_, np.ndarray):
         return 'none'
-    if np.all(q._mask_):
+    m = np.broadcast_to(np.asarray(q._mask_ if mask is None else mask, dtype=bool), q._shape_)
+    if np.all(m):
         return 'all'
-    if not np.any(q._mask_):
+    if not np.any(m):
         return 'none'
-    return 'mixed'
+    hidden = q._values_[m]
+    lossy = bool(np.any(hidden != np.broadcast_to(np.asarray(q._default_), hidden.shape)))
+    return 'mixedlossy' if lossy else 'mixed'
+
+def deriv_mask_class(q, d):
+    """a derivative is encoded under its parent's antimask when the parent's mask is a mixed array"""
+    if mask_class(q).startswith('mixed'):
+        c = mask_class(d, mask=q._mask_)
+        return c if c.startswith('mixed') else 'mixed'
+    return mask_class(d)
 
 
 # ------------------------------------------------------------------ the real executor
@@ -384,26 +396,43 @@ def request_of(R, op):
             if mode != 'bcast':
                 return None
             vidx = [0] * int(np.prod((2,) + q._shape_ + q._item_, dtype=int))
-            return [['derive', op['v'], 'bcast', vidx, [], 'A', op['rec']]]
+            return [['derive', op['v'], 'bcast', vidx, [], 'A', op['rec'], []]]
         vidx = idx_list(vf, vals, nsh)
-        # a derived mask of shape () is a single bool, not an array (its value is data of the request)
-        msc = 'A'
-        if isinstance(mask, np.ndarray) and mf is not None and np.ndim(mf(mask)) == 0:
-            msc = bool(mf(mask))
+
+        def mask_sel(m):
+            """(midx, msc) of one mask: which cells the derived mask array shows, or the single bool it becomes"""
+            if not isinstance(m, np.ndarray) or mf is None:
+                return [], 'A'
+            r = mf(m)
+            if np.ndim(r) == 0:
+                return [], bool(r)          # a derived mask of shape () is a single bool (its value is data)
+            return idx_list(lambda x: mf(x), m), 'A'
+
+        def how_view(v, m):
+            """does NumPy hand back views (True) or copies (False) for this object's arrays?  None: mixed"""
+            vview = np.shares_memory(v, vf(v, nsh)) if v.size else True
+            if isinstance(m, np.ndarray) and mf is not None:
+                mview = np.shares_memory(m, mf(m)) if m.size else True
+                if mview != vview:
+                    return None
+            return vview
+
         if np.ndim(vf(vals, nsh)) == 0:
             mode = 'scalar'                 # NumPy hands back a single number
         if mode == 'auto':
-            vview = np.shares_memory(vals, vf(vals, nsh)) if vals.size else True
-            if isinstance(mask, np.ndarray):
-                mview = np.shares_memory(mask, mf(mask)) if mask.size else True
-                if mview != vview:
-                    return None
-            mode = 'view' if vview else 'copy'
-        if isinstance(mask, np.ndarray) and mf is not None and msc == 'A':
-            midx = idx_list(lambda m: mf(m), mask)
-        else:
-            midx = []
-        return [['derive', op['v'], mode, vidx, midx, msc, op['rec']]]
+            vw = how_view(vals, mask)
+            if vw is None:
+                return None
+            for d in q._derivs_.values():
+                if op['rec'] and isinstance(d._values_, np.ndarray) and how_view(d._values_, d._mask_) != vw:
+                    return None             # the derivative's arrays are laid out differently
+            mode = 'view' if vw else 'copy'
+        midx, msc = mask_sel(mask)
+        dsel = []
+        for kk, d in q._derivs_.items():
+            dm, ds = mask_sel(d._mask_)
+            dsel.append([KEYS.index(kk), dm, ds])
+        return [['derive', op['v'], mode, vidx, midx, msc, op['rec'], dsel]]
     if k in ('wod', 'neg'):
         return [[k, op['v']]]
     if k == 'clone':
@@ -411,7 +440,7 @@ def request_of(R, op):
     if k == 'copy':
         return [['copy', op['v'], op['rec'], op['ro']]]
     if k == 'pickle':
-        return [['pickle', op['v'], mask_class(q), [[KEYS.index(kk), mask_class(d)] for kk, d in q._derivs_.items()]]]
+        return [['pickle', op['v'], mask_class(q), [[KEYS.index(kk), deriv_mask_class(q, d)] for kk, d in q._derivs_.items()]]]
     if k == 'getderiv':
         return [['getderiv', op['v'], op['k']]]
     if k == 'rawref':
@@ -422,15 +451,17 @@ def request_of(R, op):
             return None
         return [['rawview', op['v'], op['mask'], idx_list(lambda i: i[0:1] if i.ndim else i[...], a)]]
     if k == 'setitem':
+        if op['index'] in ('all', 'ell'):
+            return [['setall', op['v']]]        # "consistent with shapeless indexing": the arrays are replaced
         if not isinstance(q._values_, np.ndarray) or not q._shape_:
-            return [['setitem', op['v'], [], []]] if q._readonly_ else None
+            return [['setitem', op['v'], [], [], 0]] if q._readonly_ else None
         idx = R.index_of(op)
         pos = idx_list(lambda i: i[idx], q._values_)
         mpos = idx_list(lambda i: i[idx], np.empty(q._shape_))
-        return [['setitem', op['v'], pos, mpos]]
+        return [['setitem', op['v'], pos, mpos, int(np.prod(q._shape_, dtype=int))]]
     if k == 'iop':
         fast = q._rank_ == 0
-        return [['iop', op['v'], fast]]
+        return [['iop', op['v'], fast, unsupported_iop(q, op['sym'])]]
     if k == 'setunits':
         return [['setunits', op['v'], op['u'], False if op['ov'] == 'default' else op['ov']]]
     if k == 'deld':
@@ -450,24 +481,44 @@ def request_of(R, op):
     return None
 
 
+_GUARD_TABLE = None
+IOP_NAMES = {'+=': '__iadd__', '-=': '__isub__', '*=': '__imul__', '/=': '__itruediv__', '//=': '__ifloordiv__',
+             '%=': '__imod__', '&=': '__iand__', '|=': '__ior__', '^=': '__ixor__'}
+
+def unsupported_iop(q, sym):
+    """the operator is refused before require_writable() is reached: the class overrides it with an unconditional raise
+    (read off the regenerated guard table: every path of the defining method starts with `raise`), or it is `/=` on an
+    object that does not hold floats (qube.py `__itruediv__`, first statement)"""
+    global _GUARD_TABLE
+    if _GUARD_TABLE is None:
+        _GUARD_TABLE = {(owner, name): paths for owner, name, f, line, paths in c08_py2lean.extract()}
+    name = IOP_NAMES[sym]
+    for klass in type(q).__mro__:
+        if name in klass.__dict__:
+            paths = _GUARD_TABLE.get((klass.__name__, name))
+            if paths is not None and all(evs and evs[0][0] == 'raise' for evs, ov in paths):
+                return True
+            break
+    return sym == '/=' and not q.is_float()
+
+
 def modelled(R, op):
     """is the (successful) behaviour of this op on the current real state inside the modelled fragment?"""
     k = op['op']
     if k == 'const':
         return False
     q = R.vars[op['v']] if 'v' in op and op['v'] < len(R.vars) else None
-    if q is not None and type(q).__name__ == 'Boolean' and k == 'neg':
-        return False
-    if q is not None and not q._readonly_ and k in MUT_KINDS and any(p is not q and p._cache_.get('wod') is q for p in R.vars):
-        return False        # a mutator on a cached `wod` object clears the cache dictionary it shares with its parent
-    if k == 'derive' and q is not None and any(isinstance(d._mask_, np.ndarray) != isinstance(q._mask_, np.ndarray)
-                                               for d in q._derivs_.values()):
-        return False        # the model applies the parent's mask selection to the derivatives
-    if q is not None and type(q).__name__ == 'Boolean' and k in ('iop',):
-        return False
+    if q is not None and q._derivs_ and any(p is not q and p._cache_.get('wod') is q for p in R.vars):
+        return False        # a cached `wod` object that was given derivatives: its own cache points at itself
+    if k == 'iop' and unsupported_iop(q, op['sym']):
+        # the class (or the data type) refuses the operator before anything else: TypeError -- except that the helper
+        # that raises it trips over an ndarray operand (ValueError from the truth value of an array; C19's subject)
+        return op['arg'] != 'array'
     if q is not None and q._readonly_ and k in ('setitem', 'iop'):
-        # rejected before the arguments are looked at: every argument kind is inside the model (Boolean excluded above)
-        return not (k == 'iop' and op['sym'] in ('//=', '%=') and type(q).__name__ == 'Matrix')
+        # rejected before the arguments are looked at: every argument kind is inside the model
+        return True
+    if k == 'setitem' and op['index'] in ('all', 'ell'):
+        return op['arg'] == 'number' and isinstance(q._values_, np.ndarray) and bool(q._shape_) and not q.is_bool()
     if k == 'setitem':
         return op['arg'] == 'number' and op['index'] in ('i0', 'tail', 'neg1') and isinstance(q._values_, np.ndarray) \
             and bool(q._shape_) and not (q._derivs_ and getattr(R, 'derivs_zeroed', False)) \
@@ -480,8 +531,6 @@ def modelled(R, op):
         return (cname == 'Scalar' and op['arg'] in ('number', 'float') and q.is_float()) or \
                (cname in ('Vector3', 'Pair', 'Matrix') and op['arg'] == 'qube' and q.is_float())
     if k == 'insd' or k == 'insds':
-        if any(q is d for p in R.vars for d in p._derivs_.values()):
-            return False    # giving a stored derivative object derivatives of its own is outside the model
         pairs = [(op['k'], op['d'])] if k == 'insd' else op['kds']
         for kk, dd in pairs:
             if dd >= len(R.vars):
